@@ -174,21 +174,108 @@ def _ops_real(inp: list[str]):
     return mods, bool(col.parse_errors), None, doc
 
 
+def _allof_real(par: list[str], own: str):
+    doc = gen.mkdoc(schemas={
+        "P": {"type": "object", "properties": {n: {"type": "string"} for n in par}},
+        "C": {"allOf": [{"$ref": "#/components/schemas/P"},
+                        {"type": "object", "properties": {own: {"type": "string", "format": "date"}}}]}})
+    data, exc = _parse(doc)
+    if exc or _is_err(data):
+        return None, bool(data is not None), exc, doc
+    out = {}
+    for m in data.models:
+        out[str(m.class_info.name)] = {p.name: str(p.python_name)
+                                       for p in (m.required_properties or []) + (m.optional_properties or [])}
+    return out, bool(data.errors), None, doc
+
+
+def _nested_real(p1: str, p2: str):
+    inner = {"type": "object", "properties": {"y": {"type": "string"}}}
+    doc = gen.mkdoc(schemas={"A": {"type": "object", "properties": {
+        p1: {"type": "object", "properties": {p2: inner, "z": {"type": "integer"}}}}}})
+    data, exc = _parse(doc)
+    if exc or _is_err(data):
+        return None, bool(data is not None), exc, doc
+    return [(str(m.class_info.name), str(m.class_info.module_name)) for m in data.models], bool(data.errors), None, doc
+
+
+_PRE: dict = {}
+
+
+def _cfg_for(mode: str, sigma: list[str], maxlen: int, size: int, d, emit_all: bool):
+    return tlc.write_cfg(d / f"{mode}-{len(sigma)}-{size}.cfg",
+                         {"Sigma": set(sigma), "MaxLen": maxlen, "Mode": mode, "SetSize": size, "EmitJson": emit_all},
+                         [{"attr": "EmitAttr", "enum": "EmitEnum", "param": "EmitParam", "class": "EmitClass",
+                           "ops": "EmitOps", "allof": "EmitAllof", "nested": "EmitNested"}[mode]]
+                         + {"param": ["N3Terminates", "N2Param"], "attr": ["N2Attr"], "enum": ["N2Enum"],
+                            "allof": ["N2Allof"]}.get(mode, []))
+
+
+def prefetch(jobs, d) -> None:
+    """Run the TLC part of several scope jobs concurrently (one single-worker JVM each; PrintT needs -workers 1)."""
+    from concurrent.futures import ThreadPoolExecutor
+
+    def one(job):
+        mode, sigma, maxlen, size, emit_all = job
+        cfg = _cfg_for(mode, sigma, maxlen, size, d, emit_all)
+        return job, tlc.run_tlc("NamesMC.tla", cfg, workers=1, timeout=3000, extra=["-continue"], heap="3g")
+
+    with ThreadPoolExecutor(max_workers=12) as ex:
+        for job, res in ex.map(one, jobs):
+            _PRE[(job[0], tuple(job[1]), job[2], job[3])] = res
+
+
 def scope(rep, mode: str, sigma: list[str], maxlen: int, size: int, d, emit_all: bool = True) -> None:
-    cfg = tlc.write_cfg(d / f"{mode}.cfg", {"Sigma": set(sigma), "MaxLen": maxlen, "Mode": mode, "SetSize": size,
-                                            "EmitJson": emit_all},
-                        [{"attr": "EmitAttr", "enum": "EmitEnum", "param": "EmitParam", "class": "EmitClass",
-                          "ops": "EmitOps"}[mode]] + {"param": ["N3Terminates", "N2Param"], "attr": ["N2Attr"],
-                                                      "enum": ["N2Enum"]}.get(mode, []))
-    res = tlc.run_tlc("NamesMC.tla", cfg, workers=1, timeout=2400)
+    res = _PRE.pop((mode, tuple(sigma), maxlen, size), None)
+    if res is None:
+        res = tlc.run_tlc("NamesMC.tla", _cfg_for(mode, sigma, maxlen, size, d, emit_all), workers=1, timeout=3000,
+                          extra=["-continue"])
     rep.tlc(res)
     if res.violated:
-        # a law fails on the MODEL: TLC stops at the counterexample; concretise it against the real code
-        rep.notes.append(f"TLC: {res.violated} violated in {mode} mode: {res.counterexample[:600]}")
-        rep.extra.setdefault("tlc_law_violations", []).append({"mode": mode, "laws": res.violated})
+        # a law fails on the MODEL: concretised below against the real code (every ~Ok case is emitted)
+        rep.notes.append(f"TLC: {sorted(set(res.violated))} violated in {mode} mode: {res.counterexample[:600]}")
+        rep.extra.setdefault("tlc_law_violations", []).append({"mode": mode, "laws": sorted(set(res.violated))})
     nbad = 0
     for r in res.printed:
         nbad += 0 if r["ok"] else 1
+        if mode == "allof":
+            par, own = [conc(x) for x in r["par"]], conc(r["own"])
+            rep.count(1, ("allof", json.dumps([par, own])) if own in par or r["err"] else None)
+            out, diag, exc, doc = _allof_real(par, own)
+            if exc is not None or out is None:
+                _scope_verdict(rep, "attr-scope/allOf", [par, own], None, diag, exc, {"doc": doc})
+            else:
+                for cls in ("P", "C"):
+                    if cls in out:
+                        _scope_verdict(rep, "attr-scope/allOf", [par, own], list(out[cls].values()), False, None,
+                                       {"doc": doc, "model": cls})
+                    elif not diag:
+                        rep.violate("C09/attr-scope/allOf/dropped-without-diagnostic", f"model {cls} missing, no diagnostic",
+                                    input=[par, own], doc=doc)
+                pred = None if r["err"] else dict(zip([conc(x) for x in r["names"]], [conc(x) for x in r["py"]]))
+                real = out.get("C")
+                if (real is None) != (pred is None) or (real is not None and real != pred):
+                    rep.drifted(mode=mode, input=[par, own], model=pred, real=real)
+            continue
+        if mode == "nested":
+            p1, p2 = conc(r["i"][0]), conc(r["i"][1])
+            rep.count(1, ("nested", p1, p2) if r["dup"] else None)
+            cm, diag, exc, doc = _nested_real(p1, p2)
+            if exc is not None or cm is None:
+                _scope_verdict(rep, "class-scope/nested", [p1, p2], None, diag, exc, {"doc": doc})
+            else:
+                if len(cm) < 3 and not diag:
+                    rep.violate("C09/class-scope/nested/collapsed-without-diagnostic",
+                                f"3 schemas (A, A.{p1!r}, A.{p1!r}.{p2!r}) produced classes {cm} and no diagnostic",
+                                input=[p1, p2], doc=doc)
+                _scope_verdict(rep, "class-scope/nested/class", [p1, p2], [c for c, _ in cm], False, None, {"doc": doc})
+                _scope_verdict(rep, "class-scope/nested/module", [p1, p2], [m for _, m in cm], False, None, {"doc": doc})
+                pred = sorted(zip([conc(x) for x in r["cls"]], [conc(x) for x in r["mod"]])) if not r["dup"] else None
+                if pred is not None and sorted(cm) != pred:
+                    rep.drifted(mode=mode, input=[p1, p2], model=pred, real=cm)
+                if pred is None and len(cm) == 3:
+                    rep.drifted(mode=mode, input=[p1, p2], model="dup", real=cm)
+            continue
         if mode == "param":
             inp = [{"loc": p["loc"], "name": conc(p["name"])} for p in r["i"]]
         else:
@@ -246,7 +333,7 @@ def scope(rep, mode: str, sigma: list[str], maxlen: int, size: int, d, emit_all:
     rep.extra[f"{mode}_model_law_failures"] = nbad
     if res.printed:
         r = res.printed[-1]
-        rep.sample({"mode": mode, "case": r["i"], "model_ok": r["ok"]})
+        rep.sample({"mode": mode, "case": r.get("i") or [r.get("par"), r.get("own")], "model_ok": r["ok"]})
     if len(res.printed) < 20 and not res.violated and emit_all:
         raise tlc.TlcFailure(f"{mode} mode emitted too few cases")
 
@@ -336,17 +423,19 @@ def traces(rep, n: int, d) -> None:
 def run(rep) -> None:
     quick = rep.tier == "quick"
     d = scratch("c09-")
+    jobs = [("attr", S9 if quick else S14, 2, 2, True), ("enum", S9 if quick else S14, 2, 2, True),
+            ("class", S9 if quick else S14, 2, 2, True), ("ops", S9 if quick else S14, 2, 2, True),
+            ("param", ["i", "d", "I", "-", "_"], 2, 2 if quick else 3, quick),
+            ("attr", ["a", "A", "FWA", "_", "BN"], 2, 2, True),
+            ("allof", ["n", "N", "_", "-"] if quick else ["n", "N", "_", "-", "1", " "], 2, 2, True),
+            ("nested", S9 if quick else S14, 2, 2, True)]
+    if not quick:
+        jobs += [("attr", S7, 2, 3, False), ("enum", S7, 2, 3, False)]
     try:
+        prefetch(jobs, d)
         single(rep, 3 if quick else 4, S14, d)
-        scope(rep, "attr", S9 if quick else S14, 2, 2, d)
-        scope(rep, "enum", S9 if quick else S14, 2, 2, d)
-        scope(rep, "class", S9 if quick else S14, 2, 2, d)
-        scope(rep, "ops", S9 if quick else S14, 2, 2, d)
-        scope(rep, "param", ["i", "d", "I", "-", "_"], 2, 2 if quick else 3, d, emit_all=quick)
-        scope(rep, "attr", ["a", "A", "FWA", "_", "BN"], 2, 2, d)          # NFKC-equal and non-XID classes in one scope
-        if not quick:
-            scope(rep, "attr", S7, 2, 3, d, emit_all=False)
-            scope(rep, "enum", S7, 2, 3, d, emit_all=False)
+        for mode, sigma, maxlen, size, emit_all in jobs:
+            scope(rep, mode, sigma, maxlen, size, d, emit_all)
         sweep(rep)
         traces(rep, 1500 if quick else 12000, d)
     finally:
